@@ -95,14 +95,16 @@ Definition del_geff_attr : M unit :=
   do g <- setup_group;
   if ahas "geff" (attrs_of g) then set_root (Some (del_attr g "geff")) else fail KeyError.
 
+(* the geff attribute goes first (un-commit), then the groups: whatever an interrupted deletion leaves is not a geff *)
 Definition delete_geff (k : skind) : M unit :=
   setup_group ;;
+  del_geff_attr ;;
   del_member path_NODES ;;
   del_member path_EDGES ;;
   do g <- setup_group;
   match children g, k with
   | [], KPath => set_root None                     (* shutil.rmtree of the whole path *)
-  | _, _ => del_geff_attr
+  | _, _ => ret tt
   end.
 
 (* ---------- in-memory input of the writer ---------- *)
